@@ -6,16 +6,20 @@ def run(ctx):
     quick = ctx.tier == 'quick'
     d = 24 if quick else 40
     cfg = dict(nt=1, nx=2, sync=False, rollback=False, faults=False, crash=False)
+    way = lambda a, b: {'pred': 'reach:w-' + a + b, 'depth': 18, 'seed': {'pred': 'reach:w-' + a + '-', 'depth': 20}, 'variants': 1 if quick else 3}
     bad = ['bad:c02-committed-index-decreased', 'bad:c02-applied-ahead-of-committed', 'bad:c02-merge-out-of-order',
            'bad:c02-send-before-merge', 'bad:c02-send-out-of-order', 'bad:c02-sent-after-a-later-change', 'bad:range']
     # faults on (device unavailable / refusing): the change of a proposal that is reported APPLIED has reached the device
     cfgf = dict(nt=1, nx=2, sync=False, rollback=False, faults=True, crash=False)
-    way = lambda a, b: {'pred': 'reach:w-' + a + b, 'depth': 18, 'seed': {'pred': 'reach:w-' + a + '-', 'depth': 20}, 'variants': 1 if quick else 3}
+    way_ = lambda a, b: {'pred': 'reach:w-' + a + b, 'depth': 18, 'seed': {'pred': 'reach:w-' + a + '-', 'depth': 20}, 'variants': 1 if quick else 3}
     qf = [('reach', 26, ['reach:fault']), ('bad', d, ['bad:c02-applied-but-never-sent']), ('bad', d, ['bad:c02-send-out-of-order'])]
     # waypoints: from a reachable state in which the first transaction is committed (not applied) and the second has failed /
     # is committed, every continuation of 14 steps
     qf += [('bad', 14, ['bad:c02-applied-but-never-sent', 'bad:c02-send-out-of-order', 'bad:c02-send-before-merge', 'bad:c02-sent-after-a-later-change'], way('C', b)) for b in 'FC']
     queries = [('reach', 22, ['reach:tx1-committed']), ('reach', 26, ['reach:tx1-applied'])] + [('bad', d, [b]) for b in bad]
+    # waypoint: the first transaction was rejected (its abort may still be under way), the second is committed behind it; then
+    # every continuation of 12 steps: the second change is merged before it is sent, and a committed change altered its target
+    queries += [('bad', 12, ['bad:c02-send-before-merge', 'bad:c02-merge-out-of-order', 'bad:c01-committed-but-target-unaltered', 'bad:c02-applied-ahead-of-committed'], way('F', 'C'))]
     proto.run(ctx, 'C02', [('1x2', cfg, queries, ['c02']), ('1x2f', cfgf, qf, [])],
               'transition relation of the real v2 transaction/proposal reconcilers; ordering contracts on one step from any state '
               '+ BMC of the ghost order monitors from the initial state', {'bmc_depth': d})
